@@ -93,7 +93,7 @@ func translateFlow(c Case, info *runInfo) (string, string, map[string]int, strin
 			emit(fmt.Sprintf("mkt (FDeliver %d) %d %d", p, info.fillSlot[e.A], p), flowDigit(5, p, info.fillSlot[e.A], p))
 		case evFPutF:
 			emit(fmt.Sprintf("mkt FPutF %d %d", e.A, chanItem[e.A]), flowDigit(6, 0, e.A, chanItem[e.A]))
-		case evFWNone, evFRNone, hvWItem, hvRItem, hvFCancel:
+		case evFWNone, evFRNone, hvWItem, hvRItem, hvFCancel, hvWTuple, hvRTuple, hvRResps:
 		default:
 			return "", fmt.Sprintf("unexpected event kind %d in a flowbuffer trace", e.Kind), kinds, "", 0
 		}
